@@ -269,6 +269,68 @@ def compare_virtual(ctx, pending):
             ctx.traces_validated += 1
 
 
+def selection_virtual(ctx, rng, refm_path, genes, base, n_worlds):
+    """The behemoth scheduler of select_all_markers (real loop, real inspector, stand-in
+    processes indexed by parent) against Pool.run_selection_pool."""
+    from cell_type_mapper.marker_selection.marker_array import MarkerGeneArray
+    from cell_type_mapper.taxonomy.taxonomy_tree import TaxonomyTree
+    from cell_type_mapper.diff_exp.precompute_utils import run_leaf_census  # noqa: F401 (import check only)
+    with h5py.File(refm_path, 'r') as f:
+        stats_path = json.loads(f['metadata'][()].decode('utf-8'))['precomputed_path']
+    tree = TaxonomyTree.from_precomputed_stats(stats_path)
+    with quiet():
+        arr = MarkerGeneArray.from_cache_path(cache_path=refm_path, query_gene_names=list(genes))
+    parents = list(tree.all_parents)
+    pid = {repr(p): i for i, p in enumerate(parents)}
+    n_leaves = [len(tree.leaves_to_compare(parent_node=p)) for p in parents]
+    cases, meta = [], []
+    for i in range(n_worlds):
+        cutoff_cfg = rng.choice([0, 1, 2, 1000])
+        cutoff = min(cutoff_cfg, arr.n_pairs // 2)
+        beh = [j for j in range(len(parents)) if n_leaves[j] > cutoff]
+        sml = [j for j in range(len(parents)) if n_leaves[j] <= cutoff]
+        leafless = [j for j in range(len(parents)) if n_leaves[j] == 0]
+        n = rng.randrange(1, 4)
+        w = gen_world(rng, len(parents), p_fail=0.2)
+        w['index_of'] = lambda kw: pid[repr(kw['parent_node'])]
+        d = base / f'selv{i}'
+        res = call_stage(selection_call(refm_path, genes, d, n, cutoff_cfg) if d.mkdir() is None else None,
+                         ['selection'], world=w)
+        shutil.rmtree(d, ignore_errors=True)
+        w = {'code': w['code'], 'dur': w['dur']}
+        started = [x for ev, x in res['logs']['selection'] if ev == 'start']
+        popped = [x for ev, x in res['logs']['selection'] if ev == 'pop']
+        obs = {'ok': res['ok'], 'code': res['msg_code'], 'started': started, 'popped': popped, 'etype': res['etype']}
+        cases.append((1403, [n, beh, sml, leafless, w['code'], w['dur']]))
+        meta.append((n, cutoff_cfg, beh, sml, leafless, w, obs, res['error']))
+    for (n, cutoff_cfg, beh, sml, leafless, w, obs, err), out in zip(meta, ctx.model(cases)):
+        rep = {'kind': 'virtual-selection', 'n_processors': n, 'behemoth_cutoff': cutoff_cfg, 'behemoths': beh, 'smaller': sml,
+               'leafless': leafless, 'world': w, 'observed': obs, 'error': err, 'n_leaf_pairs': n_leaves}
+        procs = [j for j in beh + sml if j not in leafless]
+        failing = any(w['code'][j] != 0 for j in procs)
+        ctx.count(('V', 'selection', n, cutoff_cfg, tuple(w['code']), tuple(w['dur'])), nontrivial=len(procs) >= 2)
+        ctx.dist('virtual', f'selection n={n} parents={len(procs)} behemoths={len([j for j in beh if j not in leafless])} failing={failing}')
+        bad_pop = [x for x in obs['popped'] if w['code'][x] != 0]
+        if (failing and obs['ok']) or bad_pop or (obs['ok'] and sorted(obs['started']) != sorted(procs)):
+            ctx.violation(f'selection scheduler: world {w} n={n}: returned={obs["ok"]}, started {obs["started"]} of {procs}, '
+                          f'popped with non-zero code {bad_pop}', dict(rep, **{'class': 'c14-pool-verdict'}))
+            continue
+        if out[0] != 0:
+            ctx.violation('model rejected the selection world', dict(rep, **{'class': 'corr:Pool.run_selection_pool'}), no_input=True)
+            continue
+        verdict, m_started, m_completed = out[1]
+        m_procs = [x for x in m_started if x not in leafless]
+        good = (verdict[0] == 0) == obs['ok'] and m_procs == obs['started'] and verdict[0] != 2
+        if verdict[0] == 1:
+            good = good and obs['code'] == verdict[2] and obs['etype'] == 'RuntimeError'
+        if not good:
+            ctx.disagreements_checked += 1
+            ctx.violation(f'selection scheduler and Pool.run_selection_pool disagree: model {out[1]}, observed {obs}',
+                          dict(rep, model=out[1], **{'class': 'corr:Pool.run_selection_pool'}), no_input=True)
+        else:
+            ctx.traces_validated += 1
+
+
 # ------------------------------------------------------------------ F: mapping faults
 def observe_mapping(d, cfg, res):
     out = d / 'out'
@@ -624,8 +686,15 @@ def stage_faults(ctx, rng, stage, tag, make_fn, k_of, workers_of, n_processors, 
         if plan is not None:
             verdicts[phase_idx] = code
         cases.append((1402, [STAGE_INDEX[stage], verdicts, not o['cleanup_failed']]))
-    outs = ctx.model(cases)
-    for (plan, o, rep, code), out in zip(runs, outs):
+        # a pool that belongs to a nested stage call (the transposition inside the marker stage): the
+        # exception that leaves the nested call (inspector's or its finally block's) is what propagates
+        nested = STAGE_INDEX[target] if target != stage else STAGE_INDEX[stage]
+        cases.append((1402, [nested, [0 if plan is None else code], not o['cleanup_failed']]))
+    outs2 = ctx.model(cases)
+    outs = outs2[0::2]
+    for (plan, o, rep, code), out, out_n in zip(runs, outs, outs2[1::2]):
+        if out[0] == 0 and out_n[0] == 0 and target != stage:
+            out = [0, [out[1][0], out[1][1], out_n[1][2]]]
         if out[0] != 0:
             ctx.violation('model rejected the stage case', dict(rep, **{'class': 'corr:Pool.run_stage_desc'}), no_input=True)
             continue
@@ -698,7 +767,7 @@ def run(ctx):
     vb.mkdir()
     n_cells = rng.choice([7, 9, 10])
     mapping_inputs(rng, vb, n_cells)
-    for i in range(ctx.n(14, 120)):
+    for i in range(ctx.n(40, 200)):
         n = rng.randrange(1, 5)
         cs = rng.randrange(2, 5)
         k = -(-n_cells // min(max(1, -(-n_cells // n)), cs))
@@ -710,7 +779,7 @@ def run(ctx):
             return mapping_call(cfg)
         virtual_case(ctx, 'mapping', mk, n, k, world, {'dir': vb / f'm{i}', 'what': f'{n_cells} cells chunk {cs}'}, pending)
     gt, genes, n_rows = reference_inputs(rng, vb)
-    for i in range(ctx.n(10, 80)):
+    for i in range(ctx.n(20, 100)):
         n = rng.randrange(2, 5)
         rat = rng.randrange(3, 9)
 
@@ -728,7 +797,7 @@ def run(ctx):
         stats_call(vb, vb, gt, 50, 1)()
     for st, mkcall in (('pmask', lambda d, n: pmask_call(vb / 'stats.h5', d, n)),
                        ('markers', lambda d, n: markers_call(vb / 'stats.h5', d, n))):
-        for i in range(ctx.n(4, 40)):
+        for i in range(ctx.n(8, 40)):
             n = rng.randrange(1, 4)
 
             def mk(d, n=n, mkcall=mkcall):
@@ -783,6 +852,7 @@ def run(ctx):
             stage_faults(ctx, rng, 'selection', f'{rd}n{npz}',
                          lambda d, npz=npz, cut=cut: selection_call(fb / 'refm.h5', genes, d, npz, cut),
                          None, wk, npz, phases=1, what=f'query marker selection, behemoth cutoff {cut}')
+        selection_virtual(ctx, rng, fb / 'refm.h5', genes, fb, ctx.n(10, 40))
         # parallel transposition of a generated CSR matrix
         nr, nc = rng.randrange(10, 16), rng.randrange(6, 11)
         M = np.array([[rng.choice([0, 0, 1, 2, 3]) for _ in range(nc)] for _ in range(nr)], dtype=np.float32)
